@@ -11,7 +11,8 @@ folded numbers differ, over bases in which some of the numbers can and others ca
 enumerates, from the tables regenerated from the staged source (pow_set, pow_num, exp_set, exp_ord):
 
 * site kinds x run lengths 1..3, every ORDERED pair of them, under every subset of the optional binary operators
-  {-, /, pow, pow_abs} (always + and *), the runs drawn so that the classes of the folded numbers
+  {-, /, pow} (always + and *; the label pow_abs, outside the property's quantifier, in one further PRNG pattern
+  per pair and in every pair with a P site), the runs drawn so that the classes of the folded numbers
   (integer > 1, unit fraction, 1, negative integer, negative unit fraction, truncated run) rotate through all pairs;
 * embeddings of the two sites: siblings under a binary operator of the basis, or nested (the second site is the
   argument of the first);
@@ -190,22 +191,26 @@ def cases(rng, tb, per_combo, ntriples, kinds=("L", "E", "LE", "P")):
     sk = [(k, n) for k in kinds for n in (1, 2, 3)]
     strata = [(c1, c2) for c1 in CLASSES for c2 in CLASSES]
     si = rng.randrange(len(strata))
+    core = [o for o in OPT_BIN if o != "pow_abs"]
+    pats = [list(c) for r in range(len(core) + 1) for c in itertools.combinations(core, r)]
     for (k1, n1), (k2, n2) in itertools.product(sk, repeat=2):
-        for r in range(len(OPT_BIN) + 1):
-            for opt in itertools.combinations(OPT_BIN, r):
-                if "P" in (k1, k2) and "pow_abs" not in opt:
-                    continue
-                b2 = ["+", "*"] + list(opt)
-                hows = list(b2) + ["nest"]
-                for rep in range(per_combo):
-                    si += 1
-                    c1, c2 = strata[si % len(strata)]
-                    s1 = _draw_site(rng, tb, k1, n1, c1, cache)
-                    s2 = _draw_site(rng, tb, k2, n2, c2, cache)
-                    how = hows[(si // len(strata) + rep) % len(hows)] if rng.random() < 0.5 else rng.choice(hows)
-                    leaves = rng.choice([("x", "a0"), ("a0", "x"), ("x", "x")])
-                    labels = embed_pair(rng, s1, s2, how, leaves)
-                    _emit(out, seen, rng, tb, labels, [s1, s2], b2, "pair:%s,%s:%s" % (s1.tag(), s2.tag(), how))
+        if "P" in (k1, k2):
+            # label pow_abs: outside the property's quantifier (observations): one PRNG pattern per repetition
+            todo = [rng.choice(pats) + ["pow_abs"] for _ in range(per_combo)]
+        else:
+            # every subset of {-, /, pow}; pow_abs present in one further PRNG pattern
+            todo = [p for p in pats for _ in range(per_combo)] + [rng.choice(pats) + ["pow_abs"]]
+        for rep, opt in enumerate(todo):
+            b2 = ["+", "*"] + list(opt)
+            hows = list(b2) + ["nest"]
+            si += 1
+            c1, c2 = strata[si % len(strata)]
+            s1 = _draw_site(rng, tb, k1, n1, c1, cache)
+            s2 = _draw_site(rng, tb, k2, n2, c2, cache)
+            how = hows[(si // len(strata) + rep) % len(hows)] if rng.random() < 0.5 else rng.choice(hows)
+            leaves = rng.choice([("x", "a0"), ("a0", "x"), ("x", "x")])
+            labels = embed_pair(rng, s1, s2, how, leaves)
+            _emit(out, seen, rng, tb, labels, [s1, s2], b2, "pair:%s,%s:%s" % (s1.tag(), s2.tag(), how))
     for _ in range(ntriples):
         opt = [o for o in OPT_BIN if rng.random() < 0.4]
         ks = [k for k in kinds if k != "P" or "pow_abs" in opt]
